@@ -86,15 +86,23 @@ class Evaluator:
     """ceval(expr, env) with name lookup through: env (locals), class constants along the
     MRO (self.X, self.__class__.X, Cls.X), module-level assignments, imported names."""
 
-    def __init__(self, repo, module=None, cls=None, env=None, depth=0):
+    def __init__(self, repo, module=None, cls=None, env=None, depth=0, class_scope=None):
         self.repo = repo
         self.module = module
         self.cls = cls
         self.env = env or {}
         self.depth = depth
+        self.class_scope = class_scope   # ClassInfo whose body the expression is written in (bare names see its constants)
 
-    def sub(self, module=None, cls=None, env=None):
-        return Evaluator(self.repo, module or self.module, cls if cls is not None else self.cls, env or {}, self.depth + 1)
+    def sub(self, module=None, cls=None, env=None, class_scope=None):
+        return Evaluator(self.repo, module or self.module, cls if cls is not None else self.cls, env or {}, self.depth + 1, class_scope)
+
+    def class_const(self, cls, name):
+        """value of the class-level constant `name` of cls (looked up along the MRO)"""
+        k, expr = self.repo.class_const(cls, name)
+        if expr is None:
+            return UNK
+        return self.sub(module=k.module, cls=cls, class_scope=k).ev(expr)
 
     def ev(self, e):
         if self.depth > 12:
@@ -129,6 +137,8 @@ class Evaluator:
                 return self.env[e.id]
             if e.id in ("True", "False", "None"):
                 return K({"True": True, "False": False, "None": None}[e.id])
+            if self.class_scope is not None and e.id in self.class_scope.consts:
+                return self.sub(module=self.class_scope.module, cls=self.cls, class_scope=self.class_scope).ev(self.class_scope.consts[e.id])
             if self.module is not None:
                 r = self.repo.resolve_name(self.module, e.id)
                 if r and r[0] == "assign":
@@ -220,19 +230,19 @@ class Evaluator:
                 return UNK     # instance attribute shadows any class-level default
             k, expr = self.repo.class_const(self.cls, e.attr)
             if expr is not None:
-                return self.sub(module=k.module, cls=self.cls).ev(expr)
+                return self.sub(module=k.module, cls=self.cls, class_scope=k).ev(expr)
             return UNK
         if isinstance(v, ast.Attribute) and v.attr == "__class__" and isinstance(v.value, ast.Name) and v.value.id == "self" and self.cls is not None:
             k, expr = self.repo.class_const(self.cls, e.attr)
             if expr is not None:
-                return self.sub(module=k.module, cls=self.cls).ev(expr)
+                return self.sub(module=k.module, cls=self.cls, class_scope=k).ev(expr)
             return UNK
         if self.module is not None:
             c = self.repo.resolve_expr_class(self.module, v)
             if c is not None:
                 k, expr = self.repo.class_const(c, e.attr)
                 if expr is not None:
-                    return self.sub(module=k.module, cls=c).ev(expr)
+                    return self.sub(module=k.module, cls=c, class_scope=k).ev(expr)
                 return UNK
             m = self.repo.resolve_expr_module(self.module, v)
             if m is not None:
